@@ -142,28 +142,37 @@ theorem gw_forwarded_acts_as (env : Env) (s : State) (r : Request) (f : Forwarde
 
 /-! ## what the upstream receives of the request itself (C04) -/
 
-/-- method, Host and body are the client's; a valid escaped path arrives byte for byte; the query parses to the same
-    multimap; under every name that is not identity-bearing the upstream sees what C04's specification demands
-    (end-to-end headers in order, hop-by-hop and `Connection`-listed ones gone, `X-Forwarded-For` extended). -/
+/-- For EVERY forwarded request with a slash-led path that is not an upgrade request: method, Host and body are the
+    client's; the escaped path is the client's with exactly the bytes no URL may carry percent-escaped
+    (`escapeInvalidPathBytes`; the identity on a valid path, next theorem); the query parses to the same multimap; under
+    every name that is not identity-bearing the upstream sees what C04's specification demands (end-to-end headers in
+    order, hop-by-hop and `Connection`-listed ones gone, `X-Forwarded-For` extended). -/
 theorem gw_forwarded_fidelity (env : Env) (s : State) (r : Request) (f : Forwarded) (h : (arrive env s r).2 = .forwarded f)
-    (P : Str) (hp : Model.Forward.hasPrefixSlash (Model.Forward.cut 63 r.target).1 = true)
-    (hv : Model.Forward.validEncoded (Model.Forward.cut 63 r.target).1 = true)
-    (hd : Model.Forward.unescape .path (Model.Forward.cut 63 r.target).1 = some P)
+    (hp : Model.Forward.hasPrefixSlash (Model.Forward.cut 63 r.target).1 = true)
     (hnu : Model.Forward.isUpgradeRequest (Model.Forward.afterAuthentication (Model.Forward.parseHeaders r.lines)) = false) :
     f.up.method = r.method ∧ f.up.host = r.host ∧ f.up.body = r.body ∧
-    (Model.Forward.cut 63 f.up.target).1 = (Model.Forward.cut 63 r.target).1 ∧
+    (Model.Forward.cut 63 f.up.target).1 = Model.Forward.escapeInvalidPathBytes (Model.Forward.cut 63 r.target).1 ∧
     (∀ k, Model.Forward.valuesOf k (Model.Forward.parseQuery (Model.Forward.cut 63 f.up.target).2) =
           Model.Forward.valuesOf k (Model.Forward.parseQuery (Model.Forward.cut 63 r.target).2)) ∧
     (∀ k, Model.Identity.isIdentityName k = false →
       f.up.headers.values k =
         KG.Spec.Forward.reqHdrExpected (Model.Forward.afterAuthentication (Model.Forward.parseHeaders r.lines)) r.remoteIP k) := by
   obtain ⟨up, x, n', g, recv, ctx, _, hfwd, _, _, _, _, rfl, _⟩ := arrive_forwarded h
-  obtain ⟨u, hu, h1, h2, h3, h4, h5, h6⟩ := KG.Props.C04.c04_request_fidelity r.toForward P hp hv hd hnu
+  obtain ⟨P, hd⟩ := KG.Props.C04.c04_forwarded_decodes r.toForward up hfwd
+  obtain ⟨u, hu, h1, h2, h3, h4, h5, h6⟩ := KG.Props.C04.c04_request_fidelity r.toForward P hp hd hnu
   rw [hfwd] at hu; cases hu
   refine ⟨h1, h2, h3, h4, h5, ?_⟩
   intro k hk
   rw [values_endToEnd up k hk]
   exact h6 k
+
+/-- … a valid escaped path arrives byte for byte -/
+theorem gw_forwarded_path_valid (env : Env) (s : State) (r : Request) (f : Forwarded) (h : (arrive env s r).2 = .forwarded f)
+    (hp : Model.Forward.hasPrefixSlash (Model.Forward.cut 63 r.target).1 = true)
+    (hv : Model.Forward.validEncoded (Model.Forward.cut 63 r.target).1 = true)
+    (hnu : Model.Forward.isUpgradeRequest (Model.Forward.afterAuthentication (Model.Forward.parseHeaders r.lines)) = false) :
+    (Model.Forward.cut 63 f.up.target).1 = (Model.Forward.cut 63 r.target).1 := by
+  rw [(gw_forwarded_fidelity env s r f h hp hnu).2.2.2.1, KG.Lemmas.Forward.escapeInvalid_id _ hv]
 
 /-! ## otherwise: the row of the decision table for the first failing stage -/
 
@@ -173,7 +182,6 @@ def kindOf : Outcome → Option Model.Forward.Outcome
   | .proxyError => some .forward          -- forwarding began (the transport then refused the generated fields)
   | .terminated a => some (.terminated a)
   | .notProxied => some .notProxied
-  | .plainError c => some (.plainError c)
   | .badRequest => none
   | .panic _ => none
 
@@ -192,7 +200,6 @@ theorem gw_decision_table (env : Env) (s : State) (r : Request) (hinv : Inv s)
   · rename_i e he; exact absurd he (dispatch_never_panics hinv r e)
   · split
     · rename_i hs; simp [kindOf, hs]
-    · rename_i c hs; simp [kindOf, hs]
     · rename_i a hs
       split <;> simp [kindOf, hs]
     · rename_i hs
@@ -857,8 +864,8 @@ theorem table_retryAfter (sc : Model.Forward.Scenario) (a : Model.Forward.Answer
      simp [KG.Spec.Forward.retryAfterDemanded, KG.Spec.Forward.obsOfAnswer, hev]
      try (first | omega | (split <;> simp_all <;> omega)))
 
-/-- **answered requests**: for every request the model answers itself (any row, an IP-literal host handed to the control
-    plane, the text/plain 500 of `WithRequestInfo`), the judge — the table on the SPECIFICATION's flags, well-formedness, the
+/-- **answered requests**: for every request the model answers itself (any row — the 500 of a failed `WithRequestInfo` included —, an
+    IP-literal host handed to the control plane), the judge — the table on the SPECIFICATION's flags, well-formedness, the
     Retry-After rule — accepts the model's output -/
 theorem gw_judge_answered (env : Env) (s : State) (σ : KG.Spec.LocalLimiter.SState) (r : Request)
     (hrel : KG.Lemmas.LocalLimiter.Rel s.lim σ) (hwf : StateWF s)
@@ -882,12 +889,6 @@ theorem gw_judge_answered (env : Env) (s : State) (σ : KG.Spec.LocalLimiter.SSt
     simp only [KG.Spec.Gateway.obsOf, Option.some.injEq] at ho
     subst ho
     simp [KG.Spec.Gateway.judge, KG.Spec.Gateway.judgeAnswered, ← ht, KG.Spec.Gateway.cls]
-  | plainError c =>
-    rw [hout] at ht ho
-    simp only [kindOf, Option.some.injEq] at ht
-    simp only [KG.Spec.Gateway.obsOf, Option.some.injEq] at ho
-    subst ho
-    simp [KG.Spec.Gateway.judge, KG.Spec.Gateway.judgeAnswered, ← ht, KG.Spec.Gateway.cls, KG.Spec.Gateway.emptyTerm]
   | terminated a =>
     rw [hout] at ht ho
     simp only [kindOf, Option.some.injEq] at ht
@@ -1024,7 +1025,6 @@ def digest : Out → Nat × Str × Nat
   | .served (.forwarded f) => (200, f.endpoint.1, f.policy)
   | .served (.terminated a) => (a.httpCode, [], 0)
   | .served .notProxied => (1, [], 0)
-  | .served (.plainError c) => (c, [], 0)
   | .served .badRequest => (400, [], 0)
   | .served .proxyError => (502, [], 0)
   | .served (.panic _) => (999, [], 0)
